@@ -39,6 +39,14 @@ func c08(p *core.Prog, r *core.Report) {
 	r.Alias("C10-R3", "C08-R6")
 	c10Relay(p, r)
 	r.Alias("C10-R3", "")
+	r.Rule("C08-R3", "E6 guards", 5, "the relay clamps, never raises, the ttl on every forwarding path (shared with C14)")
+	r.Alias("C14-R3", "C08-R3")
+	c14Relay(p, r)
+	r.Alias("C14-R3", "")
+	r.Rule("C08-R7", "E6 census/paths", 3, "pooled per-call objects carry nothing from the previous call (shared with C04)")
+	r.Alias("C04-R7", "C08-R7")
+	c04Pools(p, r)
+	r.Alias("C04-R7", "")
 }
 
 // frameOrigin: "fresh" when the frame value comes from a pool Get / NewFrame in this function, else "received".
